@@ -1746,8 +1746,10 @@ impl proto::Peer for Peer {
             parts.path_and_query = Some(maybe_path.or_else(|why| {
                 malformed!("malformed headers: malformed path ({:?}): {}", path, why,)
             })?);
-        } else if is_connect && has_protocol {
-            malformed!("malformed headers: missing path in extended CONNECT");
+        } else if !is_connect || has_protocol {
+            // RFC 9113 section 8.3.1: every request except plain CONNECT carries
+            // exactly one `:path`.
+            malformed!("malformed headers: missing path");
         }
 
         b = b.uri(parts);
